@@ -142,6 +142,12 @@ def check_history(hist, cfgs, acc):
                     tips = [i for i in range(hist.n) if i not in pre]
                     if not tips:
                         continue
+                    for tip in tips:      # accounting depends on the enumeration only, never on the code under test
+                        acc.n += 1
+                        acc.count("cases:" + name)
+                        overlap = set(pre) & hist.ancestors(tip)
+                        if overlap and overlap != hist.ancestors(tip):
+                            acc.nt((name, hist.key(), pre, tip))
                     T = new_store()
                     try:
                         T.logging = False
@@ -153,7 +159,8 @@ def check_history(hist, cfgs, acc):
                                     tr.fetch(src_repo, revision_id=hist.revid(h))
                         except Exception as e:  # noqa
                             acc.violation("%s:prefill:%s:%s" % (name, type(e).__name__, fw.innermost_repo_frame(e)),
-                                          {"history": hist.describe(), "pre_content": sorted(pre), "error": str(e)[:300]})
+                                          {"config": name, "history": hist.describe(), "pre_content": sorted(pre), "tip": tips[0],
+                                           "error": str(e)[:300]})
                             continue
                         snap = T.walk()
                         for k, tip in enumerate(tips):
@@ -170,13 +177,8 @@ def check_history(hist, cfgs, acc):
 
 def one_case(acc, name, route, S, T, hist, pre, tip, src_facts, src_check, same_root):
     from breezy.branch import Branch
-    acc.n += 1
     anc = hist.ancestors(tip)
-    overlap = set(pre) & anc
     detail = {"config": name, "history": hist.describe(), "pre_content": sorted(pre), "tip": tip}
-    if overlap and overlap != anc:
-        acc.nt((name, hist.key(), pre, tip))
-    acc.count("cases:" + name)
     try:
         _do(route, S, T, hist, tip)
     except Exception as e:  # noqa
